@@ -33,6 +33,7 @@ func runC09(c *Ctx) {
 	c10CopyOut(c)
 	ruleBlockingHandOff(c, "hand-off")
 	ruleReadLockWrites(c, "table-discipline")
+	ruleAtomicReadModifyWrite(c, "table-discipline")
 	ruleSingleParser(c, "hand-off")
 	// the rotation is read in one critical section and indexed in another: the index must be brought into range
 	// against the length read in the same critical section as the access, whatever a concurrent removal did in between
